@@ -372,6 +372,28 @@ def _several_axes(fails):
             fails.append(f'(P.T @ P).reduce() raises {type(e).__name__} for several indexed axes on {shape}: {str(e)[:80]}')
 
 
+def _basic_single_axis(fails):
+    """one axis indexed by an int, a slice or a mask: P.T @ P must reduce to the 0/1 diagonal of the selected positions"""
+    from furax._base.diagonal import DiagonalOperator
+    from furax._base.indices import IndexOperator
+    mask4 = jnp.asarray([True, False, True, True])
+    for shape, idx in [((4, 3), 1), ((4, 3), -1), ((4, 3), slice(1, 3)), ((4, 3), slice(None, None, 2)), ((4, 3), mask4),
+                       ((4, 3), (slice(None), 2)), ((2, 4), (Ellipsis, slice(0, 2))), ((2, 4), (Ellipsis, mask4)),
+                       ((3, 4, 2), (slice(None), -2)), ((5,), slice(4, None))]:
+        ref = np.zeros(shape, np.float32)[_np_index(idx if isinstance(idx, tuple) else (idx,))]
+        try:
+            op = IndexOperator(idx, in_structure=S(shape), out_structure=S(ref.shape))
+            P = dense(op)
+            red = (op.T @ op).reduce()
+            if F_UNIQUE not in OPEN and not isinstance(red, DiagonalOperator):
+                fails.append(f'P.T @ P not simplified to a diagonal operator ({type(red).__name__}) for the single indexed axis '
+                             f'{idx!r} of {shape}')
+            if not close(dense(red), P.T @ P, 1e-4):
+                fails.append(f'(P.T @ P).reduce() changes the product for the index {idx!r} on {shape}')
+        except Exception as e:      # noqa: BLE001
+            fails.append(f'(P.T @ P).reduce() raises {type(e).__name__} for the index {idx!r} on {shape}: {str(e)[:80]}')
+
+
 def multiplicities(w, seed, spec):
     fails = []
     rng = np.random.default_rng(seed)
@@ -379,6 +401,8 @@ def multiplicities(w, seed, spec):
     only_unique = bool(spec.get('only_unique'))
     if not only_alias and not only_unique:
         _several_axes(fails)
+    if not only_alias:
+        _basic_single_axis(fails)
     cases = []
     size_w = w.get('size') if isinstance(w.get('size'), int) and 1 <= w.get('size') <= 6 else None
     if size_w:
